@@ -226,6 +226,99 @@ pub fn child_first(idx: usize) -> i32 {
     0
 }
 
+/// child mode: `pmc __stress <seed> <threads> <rounds>` - free-running threads released from a
+/// barrier in a fresh process, every call compared with the fresh-instance result.
+/// SAMPLING, supplementary: it can only add violations (it catches races on state that the
+/// schedule explorer cannot intercept, e.g. `static mut` / `UnsafeCell`).
+pub fn child_stress(seed: u64, nthreads: usize, rounds: usize) -> i32 {
+    crate::subject::silence_panics();
+    let alpha = alphabet();
+    // expected results from fresh instances; computed AFTER the race so that the very first
+    // library calls of the process are the racing ones
+    let barrier = std::sync::Arc::new(std::sync::Barrier::new(nthreads));
+    let mut handles = Vec::new();
+    for t in 0..nthreads {
+        let b = barrier.clone();
+        let alpha = alpha.clone();
+        handles.push(std::thread::spawn(move || {
+            let mut x = seed.wrapping_mul(0x9E3779B97F4A7C15).wrapping_add(t as u64 + 1);
+            let mut seen: Vec<(usize, String)> = Vec::new();
+            b.wait();
+            // stagger the threads by a few hundred nanoseconds, differently per seed
+            for _ in 0..((x >> 7) % 64) {
+                std::hint::spin_loop();
+            }
+            for _ in 0..rounds {
+                x ^= x << 13;
+                x ^= x >> 7;
+                x ^= x << 17;
+                let i = (x % alpha.len() as u64) as usize;
+                let got = run_static(alpha[i]);
+                if !seen.iter().any(|(j, g)| *j == i && *g == got) {
+                    seen.push((i, got));
+                }
+            }
+            seen
+        }));
+    }
+    let mut all: Vec<(usize, String)> = Vec::new();
+    for h in handles {
+        match h.join() {
+            Ok(v) => all.extend(v),
+            Err(_) => {
+                println!("MISMATCH thread-panicked");
+                return 0;
+            }
+        }
+    }
+    let ll = long_lived();
+    for (i, got) in all {
+        let exp = run_long_lived(&ll, alpha[i]);
+        if got != exp {
+            println!("MISMATCH {} {} {}", i, exp.replace('\n', " "), got.replace('\n', " "));
+        }
+    }
+    println!("DONE");
+    0
+}
+
+/// run the stress children and turn mismatches into violations
+pub fn stress(run: &Run, st: &mut Stats) -> serde_json::Value {
+    let bin = match std::env::var("PMC_BIN").map(std::path::PathBuf::from).or_else(|_| std::env::current_exe()) {
+        Ok(b) => b,
+        Err(_) => return json!(null),
+    };
+    let children = run.tier.pick(12usize, 48usize);
+    let rounds = run.tier.pick(4000usize, 20000usize);
+    let outs: Vec<(u64, String)> = (0..children as u64)
+        .into_par_iter()
+        .map(|k| {
+            let seed = run.seed.wrapping_mul(1000).wrapping_add(k);
+            let threads = 2 + (k % 3) as usize * 3; // 2, 5 or 8 threads
+            let o = Command::new(&bin).arg("__stress").arg(seed.to_string()).arg(threads.to_string()).arg(rounds.to_string()).output();
+            (seed, o.map(|o| String::from_utf8_lossy(&o.stdout).to_string()).unwrap_or_default())
+        })
+        .collect();
+    let mut mismatches = 0u64;
+    let alpha = alphabet();
+    for (seed, text) in &outs {
+        st.evaluations += 1;
+        if !text.contains("DONE") {
+            st.violation("stress_crash", || Case::new("stress").n(*seed), "the stress child finishes".into(), format!("child produced: {}", text.chars().take(200).collect::<String>()));
+        }
+        for line in text.lines().filter(|l| l.starts_with("MISMATCH")) {
+            mismatches += 1;
+            let mut it = line.splitn(3, ' ');
+            it.next();
+            let idx = it.next().and_then(|x| x.parse::<usize>().ok());
+            let rest = it.next().unwrap_or("").to_string();
+            let call = idx.and_then(|i| alpha.get(i)).map(|a| format!("{}.{:?}({})", a.0.name(), a.1, show(INPUTS[a.2]))).unwrap_or_else(|| "?".into());
+            st.violation("stress", || Case::new("stress").n(*seed).x(json!(call)), "free-running threads get the fresh-instance result (expected / got follow)".into(), rest);
+        }
+    }
+    json!({"kind": "SAMPLING (supplementary; adds violations only)", "children": children, "threads_per_child": "2, 5 or 8", "calls_per_thread": rounds, "mismatches": mismatches})
+}
+
 /// R[a]: result of each alphabet member as the first call in a fresh process
 pub fn first_call_table() -> Result<Vec<String>, String> {
     let bin = std::env::var("PMC_BIN").map(std::path::PathBuf::from).or_else(|_| std::env::current_exe()).map_err(|e| e.to_string())?;
@@ -423,6 +516,8 @@ pub fn run(_env: &Env, run: &Run) -> (Stats, Coverage) {
     }
     // (c) schedules
     let sched = crate::props::c16_sched::run_sched(run.tier, &mut st);
+    // (e) free-running stress in fresh processes - sampling, supplementary
+    let stress_report = stress(run, &mut st);
     // (d)
     let (known, unknown) = shared_state_inventory();
     let instrumented = std::env::var("PMC_SCHED_MODE").map(|m| m == "instrumented").unwrap_or(false);
@@ -440,12 +535,12 @@ pub fn run(_env: &Env, run: &Run) -> (Stats, Coverage) {
     st.sample(json!({"forms": "UsernameCaseMapped::enforce(\"Abc\") via static/new()/default()/long-lived x &str/String/&String/Cow::Borrowed/Cow::Owned", "expected": "all Ok(\"abc\")"}));
     st.sample(json!({"history": ["Nickname.enforce(U+00A8 a)", "UsernameCaseMapped.compare(Abc, ABC)", "Nickname.enforce(U+00A8 a)"], "expected": "each result equals the result of the same call made first in a fresh process"}));
     let cov = Coverage {
-        rule: format!("(a) every string of length <= {} over 16 symbols x 4 profiles x {{prepare, enforce}} x 12 (entry point, argument form) pairs and compare x 8 forms: all equal; (b) every call history of length <= {} over an alphabet of {} calls (4 profiles x 3 ops x 10 inputs hitting every fast and slow path) executed on the process-wide statics and on one long-lived instance per profile, every result compared with the result of that call as the FIRST library call of a fresh process ({} child processes); (c) every interleaving of 2-3 threads over the lazy-singleton points, see 'schedules'; (d) inventory of shared-state constructs in the three crates; non-trivial = histories mixing different calls", n, depth, alpha.len(), alpha.len()),
+        rule: format!("(a) every string of length <= {} over 16 symbols x 4 profiles x {{prepare, enforce}} x 12 (entry point, argument form) pairs and compare x 8 forms: all equal; (b) every call history of length <= {} over an alphabet of {} calls (4 profiles x 3 ops x 10 inputs hitting every fast and slow path) executed on the process-wide statics and on one long-lived instance per profile, every result compared with the result of that call as the FIRST library call of a fresh process ({} child processes); (c) every interleaving of 2-3 threads over the lazy-singleton points, see 'schedules'; (d) inventory of shared-state constructs in the three crates; (e) SAMPLING, supplementary: free-running threads released from a barrier in fresh child processes; non-trivial = histories mixing different calls", n, depth, alpha.len(), alpha.len()),
         alphabet: json!({"symbols": sigma.iter().map(|c| format!("U+{:04X}", *c as u32)).collect::<Vec<_>>(), "history_inputs": INPUTS.iter().map(|s| show(s)).collect::<Vec<_>>()}),
         bound_completed: format!("forms: {} strings; histories: depth {}", tree_size(sigma.len(), n), depth),
         exhaustive: false,
         assumptions: vec!["std::sync::Once (inside lazy_static) is trusted; the schedule explorer models it and checks the crates' code around the singletons".into()],
-        extra: json!({"abstract_states_after_histories": distinct_states.len(), "shared_state_known": known, "shared_state_unmodelled": unknown, "schedules": sched}),
+        extra: json!({"abstract_states_after_histories": distinct_states.len(), "shared_state_known": known, "shared_state_unmodelled": unknown, "schedules": sched, "stress": stress_report}),
     };
     (st, cov)
 }
@@ -469,6 +564,13 @@ pub fn replay(_env: &Env, case: &Case) -> Vec<Violation> {
         }
         "schedule" => {
             st.violations = crate::props::c16_sched::replay_sched(case);
+        }
+        "stress" | "stress_crash" => {
+            // sampling: re-running the same seed is likely, not certain, to show the mismatch again
+            let fake = Run { prop: "C16".into(), tier: Tier::Quick, seed: case.nums.first().copied().unwrap_or(0) / 1000, start: std::time::Instant::now(), known: vec![] };
+            let mut all = Stats::default();
+            stress(&fake, &mut all);
+            st.violations = all.violations.into_iter().take(1).map(|mut v| { v.case = case.clone(); v }).collect();
         }
         _ => {}
     }
